@@ -1,4 +1,5 @@
 import BS.Properties.C10
+import BS.Properties.C10m
 #print axioms BS.KV.sortKV_perm
 #print axioms BS.KV.sortKV_sorted
 #print axioms BS.KV.merge2_perm
@@ -7,3 +8,6 @@ import BS.Properties.C10
 #print axioms BS.KV.reduceAll_strictSorted
 #print axioms BS.KV.reduceAll_streams_irrelevant
 #print axioms BS.KV.reduce_of_sorted_runs
+#print axioms BS.Merge.run_spec
+#print axioms BS.Merge.reduce_machine_spec
+#print axioms BS.Merge.reduce_machine_sorted
